@@ -4,8 +4,8 @@ from checks.c15 import Server_client
 
 PROP = "C14"
 GENS = ["gen_protocol"]
-CONE = ["Server/Protocol.v", "Server/ConcModel.v", "Server/ConcProofs.v", "Props/C14.v", "Gen/Protocol.v"]
-THEOREMS = ["C14_protocol_ranked", "C14_no_deadlock", "C14_reads_and_commits_atomic", "C14_entry_atomic"]
+CONE = ["Server/Protocol.v", "Server/ConcModel.v", "Server/ConcProofs.v", "Server/ConcAtomic.v", "Props/C14.v", "Gen/Protocol.v"]
+THEOREMS = ["C14_protocol_ranked", "C14_no_deadlock", "C14_reads_and_commits_atomic", "C14_guarded_exclusive", "C14_read_is_snapshot", "C14_entry_atomic"]
 
 # the lock order of each handler / task as extracted (Acq sequence), expressed in trace points
 EXPECT_ORDER = {
